@@ -41,12 +41,14 @@ type Asked struct{ DS, Type, Field string }
 // decisions.  Every question is recorded.
 type PostFetch struct {
 	D        Decisions
+	Lim      *Limiter // installed on the request context at the first AuthorizePreFetch call, nil = no rate limiting
 	mu       sync.Mutex
 	Object   []Asked // AuthorizeObjectField questions
 	PreFetch []Asked // AuthorizePreFetch questions
 }
 
-func (a *PostFetch) AuthorizePreFetch(_ *resolve.Context, ds string, _ json.RawMessage, c resolve.GraphCoordinate) (*resolve.AuthorizationDeny, error) {
+func (a *PostFetch) AuthorizePreFetch(ctx *resolve.Context, ds string, _ json.RawMessage, c resolve.GraphCoordinate) (*resolve.AuthorizationDeny, error) {
+	a.Lim.install(ctx)
 	a.mu.Lock()
 	a.PreFetch = append(a.PreFetch, Asked{strings.Clone(ds), strings.Clone(c.TypeName), strings.Clone(c.FieldName)})
 	a.mu.Unlock()
@@ -69,15 +71,93 @@ func (a *PostFetch) AuthorizeObjectField(_ *resolve.Context, ds string, _ json.R
 func (a *PostFetch) HasResponseExtensionData(*resolve.Context) bool            { return false }
 func (a *PostFetch) RenderResponseExtension(*resolve.Context, io.Writer) error { return nil }
 
+// Hooks are the loader's OTHER pre-fetch hooks under which a run executes: the fetch gate has to hold under
+// every combination of them (seeded regression C14-m7: the rate limiter's verdict overwrote the gate's).
+type Hooks struct {
+	RateLimit int  // 0 off; 1 RateLimitOptions.Enable + a limiter that lets every request pass; 2 ... that rejects every request
+	Trace     bool // TracingOptions.Enable (the trace is not included in the response)
+}
+
+func (h Hooks) String() string {
+	s := [...]string{"", "rl", "rlx"}[h.RateLimit]
+	if h.Trace {
+		s += "tr"
+	}
+	if s == "" {
+		return "none"
+	}
+	return s
+}
+
+// ParseHooks: none | rl | rlx | tr | rltr | rlxtr
+func ParseHooks(s string) Hooks {
+	h := Hooks{Trace: strings.HasSuffix(s, "tr")}
+	switch strings.TrimSuffix(s, "tr") {
+	case "rl":
+		h.RateLimit = 1
+	case "rlx":
+		h.RateLimit = 2
+	}
+	return h
+}
+
+// Limiter is a resolve.RateLimiter that answers every fetch the same way and records the fetches it is asked about.
+// The ExecutionEngine has no execution option for it: it is put on the request's resolve.Context by the authorizer
+// the first time the engine hands that context out (Batch.AuthorizeFields -- before any fetch; PostFetch.AuthorizePreFetch
+// -- before the rate limit test of the same fetch), through the public Context.SetRateLimiter / RateLimitOptions.
+type Limiter struct {
+	Reject    bool
+	mu        sync.Mutex
+	Installed bool
+	Calls     int
+}
+
+func (l *Limiter) RateLimitPreFetch(_ *resolve.Context, _ *resolve.FetchInfo, _ json.RawMessage) (*resolve.RateLimitDeny, error) {
+	l.mu.Lock()
+	l.Calls++
+	l.mu.Unlock()
+	if l.Reject {
+		return &resolve.RateLimitDeny{Reason: "limited"}, nil
+	}
+	return nil, nil
+}
+func (l *Limiter) RenderResponseExtension(*resolve.Context, io.Writer) error { return nil }
+
+func (l *Limiter) install(ctx *resolve.Context) {
+	if l == nil || ctx == nil {
+		return
+	}
+	l.mu.Lock()
+	defer l.mu.Unlock()
+	if l.Installed {
+		return
+	}
+	l.Installed = true
+	ctx.RateLimitOptions.Enable = true
+	ctx.SetRateLimiter(l)
+}
+
+// State reports (installed, calls).
+func (l *Limiter) State() (bool, int) {
+	if l == nil {
+		return false, 0
+	}
+	l.mu.Lock()
+	defer l.mu.Unlock()
+	return l.Installed, l.Calls
+}
+
 // Batch is a resolve.BatchAuthorizer (pre-fetch mode) recording the coordinates it was asked.
 type Batch struct {
 	D     Decisions
+	Lim   *Limiter // installed on the request context at the batch call, nil = no rate limiting
 	mu    sync.Mutex
 	Calls int
 	Asked []Asked
 }
 
-func (a *Batch) AuthorizeFields(_ *resolve.Context, cs []resolve.GraphCoordinate) ([]resolve.AuthorizationDecision, error) {
+func (a *Batch) AuthorizeFields(ctx *resolve.Context, cs []resolve.GraphCoordinate) ([]resolve.AuthorizationDecision, error) {
+	a.Lim.install(ctx)
 	a.mu.Lock()
 	defer a.mu.Unlock()
 	a.Calls++
